@@ -48,6 +48,26 @@ class Facts:
         with open(base) as fh:
             known = {l.strip() for l in fh if l.strip() and not l.startswith('#')}
         self.new_fns = {p for p, r in self.hir.items() if p not in known and r.get('kind') in ('Fn', 'AssocFn')}
+        # a private function that was merely renamed is not a new helper: a new function next to a vanished baseline function
+        # of the same parent and signature is kept as a body of its own (role-based anchors find it under its new name)
+        gone = [k for k in known if k not in self.hir and '::{' not in k]
+        def parent(p):
+            return p.rsplit('::', 1)[0]
+        def sig(p):
+            it = self.items.get(p) or {}
+            return (tuple(it.get('inputs') or ()), it.get('output'))
+        base_sigs = {}
+        sigfile = base + '.sigs'
+        if os.path.exists(sigfile):
+            with open(sigfile) as fh:
+                base_sigs = json.load(fh)
+        renamed = set()
+        for n in sorted(self.new_fns):
+            for g in gone:
+                if parent(g) == parent(n) and g in base_sigs and list(base_sigs[g][0]) == list(sig(n)[0]) and base_sigs[g][1] == sig(n)[1]:
+                    renamed.add(n)
+        self.new_fns -= renamed
+        self.renamed_fns = sorted(renamed)
         if not self.new_fns:
             return
         pol = lambda cal: cal in self.new_fns
